@@ -339,7 +339,12 @@ void RouterSession::checkNudging(const char *when) {
             for (size_t k = 1; k < disp[i].size() && !on; k++) if (ptSegDist(cp, disp[i][k - 1], disp[i][k]) < 1e-6) on = true;
             bool onRaw = false;
             for (size_t k = 1; k < raw[i].size() && !onRaw; k++) if (ptSegDist(cp, raw[i][k - 1], raw[i][k]) < 1e-6) onRaw = true;
-            if (!on && onRaw && !c.detachedByDelete) violate("C10", "checkpoints", std::string("nudging-moved-route-off-a-checkpoint") + (attached ? ":end-segments-may-be-nudged" : ""), fmt("conn %d checkpoint (%g,%g) after %s", ids[i], cp.x, cp.y, when));
+            // class: the raw route runs back over itself (a 180-degree turn: it overshoots the checkpoint and returns through it), which
+            // nudging/simplification then removes together with the visit -- seen when pass-through arrival/departure masks are given for a
+            // vertical pass
+            bool doublesBack = false;
+            for (size_t k = 2; k < raw[i].size(); k++) { Pt u{raw[i][k - 1].x - raw[i][k - 2].x, raw[i][k - 1].y - raw[i][k - 2].y}, v{raw[i][k].x - raw[i][k - 1].x, raw[i][k].y - raw[i][k - 1].y}; if (u.x * v.y - u.y * v.x == 0 && u.x * v.x + u.y * v.y < 0) doublesBack = true; }
+            if (!on && onRaw && !c.detachedByDelete) violate("C10", "checkpoints", std::string("nudging-moved-route-off-a-checkpoint") + (attached ? ":end-segments-may-be-nudged" : "") + (doublesBack ? ":raw-route-doubles-back-on-itself" : ""), fmt("conn %d checkpoint (%g,%g) after %s", ids[i], cp.x, cp.y, when));
         }
     }
     auto coord = [](Pt p, int dim) { return dim ? p.y : p.x; };
@@ -732,6 +737,43 @@ static Json genNudgeSession(Rng &r, const std::string &tier) {
                 Json o = Json::obj(); o.set("op", "addConn"); o.set("id", cids[(size_t)i]); o.set("src", rev ? eb : ea); o.set("dst", rev ? ea : eb); o.set("ctor", (long)r2.below(2));
                 ops.push(o);
             }
+            { Json o = Json::obj(); o.set("op", "process"); ops.push(o); }
+            s.set("ops", ops);
+            return s;
+        }
+    }
+    {
+        // swarm member "checkpoint on a straight run after an S-bend" (side stream).  A connector leaves its source sideways (an obstacle
+        // sits right above it), turns, and reaches its destination along a straight run that passes through a checkpoint given with
+        // pass-straight-through arrival / departure directions; the turning segment is a free S-bend segment whose shift is limited by
+        // that checkpoint.  A second, straight connector crosses the run.  Orientation (transpose, two mirrors), positions and the
+        // nudging distance are drawn; the masks are mapped with the frame.
+        Rng r2(Rng::mix(r.s, "checkpoint-after-s-bend"));
+        if (r2.chance(0.04)) {
+            double nd2 = r2.pick(std::vector<double>{4, 10, 16}); params.set("7", nd2);
+            options = Json::obj();      // all nudging options at their defaults
+            cfg.set("params", params); cfg.set("options", options); cfg.set("style", "ortho+nudging+checkpoint-after-s-bend"); s.set("cfg", cfg);
+            bool swapXY = r2.chance(0.5), flipX = r2.chance(0.5), flipY = r2.chance(0.5);
+            auto T = [&](double x, double y) { if (flipX) x = 400 - x; if (flipY) y = 100 - y; return swapXY ? Pt{y, x} : Pt{x, y}; };
+            auto D = [&](unsigned d) {        // ConnDirUp 1, Down 2, Left 4, Right 8
+                if (flipY) d = ((d & 1) ? 2 : 0) | ((d & 2) ? 1 : 0) | (d & 12);
+                if (flipX) d = ((d & 4) ? 8 : 0) | ((d & 8) ? 4 : 0) | (d & 3);
+                if (swapXY) d = ((d & 1) ? 4 : 0) | ((d & 2) ? 8 : 0) | ((d & 4) ? 1 : 0) | ((d & 8) ? 2 : 0);
+                return d;
+            };
+            auto shape = [&](int id, double x0, double y0, double x1, double y1) {
+                Pt a = T(x0, y0), b = T(x1, y1); RectB c{std::min(a.x, b.x), std::min(a.y, b.y), std::fabs(a.x - b.x), std::fabs(a.y - b.y)};
+                Json o = Json::obj(); o.set("op", "addShape"); o.set("id", id); Json pj = Json::arr(); for (auto &q : rectPoly(c)) pj.push(ptJ(q)); o.set("poly", pj); o.set("rect", true); ops.push(o);
+            };
+            double cpx = 10.0 * r2.range(12, 30), bx = cpx + 10.0 * r2.range(3, 8);
+            shape(0, 250, 600, 350, 700);             // far away: extra scan lines
+            shape(1, 380, 20, 460, 80);               // right above the source of A
+            Json a = Json::obj(); a.set("op", "addConn"); a.set("id", 0);
+            { Json ea = Json::obj(); ea.set("pt", ptJ(T(400, 100))); ea.set("dirs", (long)D(4)); Json eb = Json::obj(); eb.set("pt", ptJ(T(0, 0))); eb.set("dirs", (long)D(8)); a.set("src", ea); a.set("dst", eb); a.set("ctor", 1);
+              Json cps = Json::arr(); Json cj = ptJ(T(cpx, 0)); cj.push((long)D(8)); cj.push((long)D(4)); cps.push(cj); a.set("checkpoints", cps); }
+            Json b = Json::obj(); b.set("op", "addConn"); b.set("id", 1);
+            { Json ea = Json::obj(); ea.set("pt", ptJ(T(bx, -150))); ea.set("dirs", (long)D(2)); Json eb = Json::obj(); eb.set("pt", ptJ(T(bx, 250))); eb.set("dirs", (long)D(1)); b.set("src", ea); b.set("dst", eb); b.set("ctor", 1); }
+            if (r2.chance(0.5)) { ops.push(a); if (r2.chance(0.8)) ops.push(b); } else { ops.push(b); ops.push(a); }
             { Json o = Json::obj(); o.set("op", "process"); ops.push(o); }
             s.set("ops", ops);
             return s;
